@@ -212,3 +212,24 @@ def run_both(m, cases):
 
 def eq_summary(a, b):
     return a == b
+
+
+def exhaustive_machine_corpus(m, classes, length, seed, n_sym=3):
+    """ALL histories up to `length` over add(3 symbols) / remove #0,#1 / same-name replace #0 / final, for every type of the machine classes"""
+    import itertools
+    rng = random.Random(seed * 31 + 1)
+    seq_cases, bag_cases = [], []
+    for k, cl in sorted(classes.items()):
+        alpha = rx.alphabet(m.g['templates'][k])
+        sub = rng.sample(alpha, min(n_sym, len(alpha)))
+        if cl in ('seq', 'noopt'):
+            ops = [['a', s] for s in sub] + [['r', 0], ['r', 1], ['q', 0], ['f', 0]]
+            for ln in range(1, length + 1):
+                for h in itertools.product(ops, repeat=ln):
+                    seq_cases.append({'type': k, 'ops': [list(o) for o in h]})
+        elif cl == 'bag':
+            ops = [['a', s] for s in sub] + [['f', 0]]
+            for ln in range(1, length + 2):
+                for h in itertools.product(ops, repeat=ln):
+                    bag_cases.append({'type': k, 'ops': [list(o) for o in h]})
+    return seq_cases, bag_cases
